@@ -184,6 +184,40 @@ def soup(rng, n):
     return "".join(rng.choice(alphabet) for _ in range(n))
 
 
+STR_PREFIXES = ["", "", "r", "b", "f", "f", "f", "rb", "br", "rf", "fr", "F", "R", "B", "u"]
+STR_QUOTES = ["'", '"', "'''", '"""']
+STR_ATOMS = ["{", "}", "{{", "}}", "{a}", "{a", "a}", "{}", "{a.b}", "{a!r}", "{a:>3}", "{a[0]}", "{ a }", "{1}", "{a}{b}", "\u00e9", "\u65e5", "\U0001F600", "\u0301", "\\", "\\n", "\\x41", "\\x4",
+             "\\u00e9", "\\u", "\\U0001F600", "\\U0011", "\\{", "\\}", "\\'", '\\"', "\\0", "\\777", "\\\n", "\n", "\r", "\r\n", "a", "b", " ", "'", '"', "!", "!r", ":", ".", "[", "]", "%s", "%", "%(a)s", "\t",
+             "\ufeff", "\x00", "0", "#", "\\N{DASH}", "\u2028", "\x7f", "\xa0"]
+
+
+def string_literal_input(rng):
+    """One statement built around randomly composed string literals: every prefix x quote style x content made of
+    braces, escapes, multi-byte characters, quotes and line breaks (terminated or not)."""
+    def lit():
+        pre = rng.choice(STR_PREFIXES)
+        q = rng.choice(STR_QUOTES)
+        body = "".join(rng.choice(STR_ATOMS) for _ in range(rng.choice([0, 1, 1, 2, 2, 3, 4, 6, 10])))
+        end = q if rng.random() < 0.85 else rng.choice(["", q[:1], "\n"])
+        return pre + q + body + end
+    k = rng.randrange(8)
+    if k == 0:
+        return "x = %s\n" % lit()
+    if k == 1:
+        return "x = %s %s\n" % (lit(), lit())
+    if k == 2:
+        return "f(%s, k=%s)\n" % (lit(), lit())
+    if k == 3:
+        return "def g(a, b):\n    return %s %% (a, b)\n" % lit()
+    if k == 4:
+        return "x = [%s for a in %s if %s]\n" % (lit(), lit(), lit())
+    if k == 5:
+        return "x = %s.format(a=%s)\ny = {%s: %s}\n" % (lit(), lit(), lit(), lit())
+    if k == 6:
+        return "# %s\nx = %s # %s\n" % (lit(), lit(), lit())
+    return lit()
+
+
 CORNERS = [
     "x = 1\r\ny = 2\r\n", "x = 1\ry = 2\r", "x = 1\r", "\r\n", "if a:\r\n    x = 1\r\n", "if a:\n\tx = 1\n        y = 2\n", "if a:\n        x = 1\n\ty = 2\n", "x = 1 \\\n", "x = 1 \\", "x = \\\n1\n", "\\\n", "\\",
     "x = \"abc", "x = 'abc", "x = \"\"\"abc", "x = '''abc\n\n", "x = \"a\\", "x = \"\\", "x = \"\\\"", "x = '\\x'", "x = '\\x4'", "x = '\\x41'", "x = '\\xZZ'", "x = '\\u'", "x = '\\u12'", "x = '\\u1234'", "x = '\\uD800'",
